@@ -149,6 +149,18 @@ func checkC09(e *RunEnv) *CheckResult {
 				}
 			}
 		}
+		// sibling directories whose names extend one another ("lib-old/", "lib.d/" sort before "lib/"), all missing
+		// from disk: each restored file's parent directory must be created, in whatever order the arguments name them
+		// (the change C08-r8m1 — a "directory already made" cache keyed by string prefix — breaks restore as well)
+		sib := append(append([]Step{}, seedS0()...), Write("lib-old/x.txt", "x1\n"), Write("lib.d/w", "w1\n"), Write("lib/y.txt", "y1\n"), Write("lib/zz/z", "z1\n"), Run("add", "lib-old", "lib.d", "lib"))
+		if sb := x.BuildState(sib); sb != nil {
+			gone := [][]Step{{Rmdir("lib-old"), Rmdir("lib.d"), Rmdir("lib")}, {Rmdir("lib-old"), Rmdir("lib")}, {Rmdir("lib.d"), Rmdir("lib")}, {Rmdir("lib")}}
+			for _, g := range gone {
+				for _, as := range [][]string{{"."}, {"lib-old", "lib.d", "lib"}, {"lib-old", "lib"}, {"lib.d/w", "lib/y.txt"}, {"lib", "lib-old"}, {"lib-old/x.txt", "lib/zz"}} {
+					cs = append(cs, Case{Base: sb, BaseName: "sibling-dirs", BaseSeed: sib, Steps: append(append([]Step{}, g...), Run(append([]string{"restore"}, as...)...).WithTags("sibling-dirs-missing"))})
+				}
+			}
+		}
 		sweep = x.RunCases(cs)
 	}, func(x *Explorer, cov map[string]interface{}) {
 		cov["name_sweep_cases"] = sweep
